@@ -79,6 +79,8 @@ func inBounds(i int64, n int) bool { return 0 <= wrapIndex(i, n) && wrapIndex(i,
 
 
 
+
+
 // BEGIN GENERATED members (tools/gen_member_contracts.py; edit the table there)
 
 // Every member the analyzer offers on a type exists on every value of that type.
